@@ -189,6 +189,29 @@ pub fn catch<T>(f: impl FnOnce() -> T) -> Result<T, String> {
     }
 }
 
+/// Run `f` on a freshly spawned thread and wait for it (an object under test changes threads between
+/// two calls: nothing may depend on which thread uses it). The caller's tracing dispatcher goes along;
+/// a panic over there is re-raised here, with its message, as if it had happened on this thread.
+pub fn on_other_thread<T: Send>(f: impl FnOnce() -> T + Send) -> T {
+    let dispatch = tracing::dispatcher::get_default(|d| d.clone());
+    let res: Result<T, Option<String>> = std::thread::scope(|s| {
+        s.spawn(move || {
+            IN_GUARD.with(|g| g.set(1));
+            tracing::dispatcher::with_default(&dispatch, || panic::catch_unwind(AssertUnwindSafe(f)).map_err(|_| last_panic()))
+        })
+        .join()
+        .expect("harness: helper thread")
+    });
+    match res {
+        Ok(v) => v,
+        Err(msg) => {
+            LAST_PANIC.with(|p| *p.borrow_mut() = msg.map(|m| format!("{m} [on another thread than the one that created the object]")));
+            PANIC_COUNT.with(|c| c.set(c.get() + 1));
+            panic::resume_unwind(Box::new("panic on helper thread"))
+        }
+    }
+}
+
 // ---------------------------------------------------------------------------------------------
 // helpers
 
@@ -371,7 +394,10 @@ fn guarded<C>(check: &(dyn Fn(&C) -> CaseResult + Sync), case: &C) -> CaseResult
 // an application has installed one, so every fourth case is evaluated with a subscriber that enables
 // everything (TRACE), formats every field and throws the result away.
 
-struct EverythingOn(std::sync::atomic::AtomicU64);
+/// Enables every call site up to the given verbosity (1 TRACE = everything, 2 DEBUG, 3 INFO, 4 ERROR
+/// only): `debug!(x = expr)` is evaluated under a DEBUG subscriber but a `trace!` next to it is not, so
+/// code that does work inside either must be seen under both.
+struct EverythingOn(std::sync::atomic::AtomicU64, u8);
 
 struct FormatAll(usize);
 
@@ -385,8 +411,14 @@ impl tracing::field::Visit for FormatAll {
 }
 
 impl tracing::Subscriber for EverythingOn {
-    fn enabled(&self, _m: &tracing::Metadata<'_>) -> bool {
-        true
+    fn enabled(&self, m: &tracing::Metadata<'_>) -> bool {
+        let max = match self.1 {
+            1 => tracing::Level::TRACE,
+            2 => tracing::Level::DEBUG,
+            3 => tracing::Level::INFO,
+            _ => tracing::Level::ERROR,
+        };
+        *m.level() <= max
     }
     fn new_span(&self, attrs: &tracing::span::Attributes<'_>) -> tracing::span::Id {
         attrs.record(&mut FormatAll(0));
@@ -403,7 +435,9 @@ impl tracing::Subscriber for EverythingOn {
     fn exit(&self, _span: &tracing::span::Id) {}
 }
 
-pub const TRACED_SUFFIX: &str = " [only with a TRACE-level tracing subscriber installed]";
+fn traced_suffix(level: u8) -> String {
+    format!(" [only with a tracing subscriber installed that enables everything up to {}]", ["", "TRACE", "DEBUG", "INFO", "ERROR"][level.min(4) as usize])
+}
 
 // ---- ambient dimensions --------------------------------------------------------------------------
 // Circumstances no property statement restricts and that are not part of a case: whether a tracing
@@ -413,20 +447,24 @@ pub const TRACED_SUFFIX: &str = " [only with a TRACE-level tracing subscriber in
 
 #[derive(Clone, Copy, Debug, PartialEq, Eq)]
 pub struct Ambient {
-    pub traced: bool,
+    /// 0: no tracing subscriber; 1-4: one that enables TRACE / DEBUG / INFO / ERROR and everything less verbose
+    pub traced: u8,
     /// 0: fresh connection; 1: a long command was sent before; 2: a command list was sent before;
-    /// 3: a long command, a list and a short command were sent before
+    /// 3: a long command, a list and a short command were sent before; 4 / 5: the connection's first
+    /// send_list / send was refused by the transport before it took a byte (blocking: WouldBlock;
+    /// async: Pending, future dropped) and the application gave up on it
     pub send_history: u8,
 }
 
-const PLAIN: Ambient = Ambient { traced: false, send_history: 0 };
+const PLAIN: Ambient = Ambient { traced: 0, send_history: 0 };
 
 fn ambient_for(i: u64) -> Ambient {
-    Ambient { traced: i % 4 == 3, send_history: if i % 3 == 2 { 1 + ((i / 3) % 3) as u8 } else { 0 } }
+    let traced = if i % 4 == 3 { [1u8, 2, 1, 3, 1, 2, 1, 4][((i / 4) % 8) as usize] } else { 0 };
+    Ambient { traced, send_history: if i % 3 == 2 { 1 + ((i / 3) % 5) as u8 } else { 0 } }
 }
 
 fn all_ambients() -> impl Iterator<Item = Ambient> {
-    [false, true].into_iter().flat_map(|traced| (0..4u8).map(move |send_history| Ambient { traced, send_history }))
+    [0u8, 1, 2, 3, 4].into_iter().flat_map(|traced| (0..6u8).map(move |send_history| Ambient { traced, send_history }))
 }
 
 thread_local! {
@@ -440,23 +478,26 @@ pub fn send_history() -> u8 {
 
 fn guarded_in<C>(a: Ambient, check: &(dyn Fn(&C) -> CaseResult + Sync), case: &C) -> CaseResult {
     SEND_HISTORY.with(|c| c.set(a.send_history));
-    let mut r = if a.traced {
-        let sub = EverythingOn(std::sync::atomic::AtomicU64::new(0));
+    let mut r = if a.traced != 0 {
+        let sub = EverythingOn(std::sync::atomic::AtomicU64::new(0), a.traced);
         tracing::subscriber::with_default(sub, || guarded(check, case))
     } else {
         guarded(check, case)
     };
     SEND_HISTORY.with(|c| c.set(0));
     if let Outcome::Fail(reason) = &mut r.outcome {
-        if a.traced {
-            reason.push_str(TRACED_SUFFIX);
+        if a.traced != 0 {
+            reason.push_str(&traced_suffix(a.traced));
         }
         if a.send_history != 0 {
-            reason.push_str(&format!(" [on a connection that had sent other commands before: history {}]", a.send_history));
+            reason.push_str(&format!(" [on a connection that had sent other commands before (4, 5: whose first send was refused by the transport before taking a byte): history {}]", a.send_history));
         }
     }
-    if a.traced {
+    if a.traced != 0 {
         r.classes.push("evaluated_with_trace_subscriber");
+    }
+    if a.traced >= 2 {
+        r.classes.push("subscriber_below_trace_level");
     }
     if a.send_history != 0 {
         r.classes.push("evaluated_on_used_sender");
